@@ -949,7 +949,7 @@ class SP(Robot):
         return np.copy(self.lengths), bottom_plate_pos, top_plate_pos
 
     def _FKSolve(self, L : 'np.ndarray[float]', plate_pos : tm = None, 
-            protect : bool = False):
+            protect : bool = False, fallback : bool = True):
         """
         Solve FK using an older version of python solver, no jacobian used.
         
@@ -988,7 +988,13 @@ class SP(Robot):
         nLens = self.getLens()
         for j in range(6):
             if abs(abs(L[j]) - abs(nLens[j])) > 0.00001 or not self.validate(True):
-                return self._FKRaphson(L, plate_pos, protect)
+                if not fallback:
+                    #Both solvers failed: reset to the neutral pose instead of bouncing between them
+                    self.fail_count += 1
+                    self.IK(top_plate_pos = plate_pos @ self._nominal_plate_transform,
+                        bottom_plate_pos = plate_pos, protect = True)
+                    return self.getBottomT(), self.getTopT()
+                return self._FKRaphson(L, plate_pos, protect, fallback = False)
         #If not "Protected" from recursion, call IK.
         if not protect:
             self.IK(protect = True)
@@ -996,7 +1002,7 @@ class SP(Robot):
 
 
     def _FKRaphson(self, L : 'np.ndarray[float]', 
-            bottom_plate_pos : tm = None, protect : bool = False):
+            bottom_plate_pos : tm = None, protect : bool = False, fallback : bool = True):
         """
         Solve FK using Newton Raphson method.
 
@@ -1075,7 +1081,12 @@ class SP(Robot):
             if self.debug:# pragma: no cover
                 disp("Raphson FK Failed due to: " + str(e))
             self.fail_count+=1
-            return self._FKSolve(L, bottom_plate_pos_backup, protect)
+            if not fallback:
+                #Both solvers failed: reset to the neutral pose instead of bouncing between them
+                self.IK(top_plate_pos = bottom_plate_pos_backup @ self._nominal_plate_transform,
+                    bottom_plate_pos = bottom_plate_pos_backup, protect = True)
+                return self.getBottomT(), self.getTopT()
+            return self._FKSolve(L, bottom_plate_pos_backup, protect, fallback = False)
 
     """
     Validation and Corrective Action Helpers
